@@ -38,6 +38,7 @@ ASSUMPTIONS = ["one or two stacks (a product may be declared in both under one v
                "requests nesting deeper than %d levels of Eups.setup (possible only on name-cyclic graphs, where the code "
                "runs into the interpreter's recursion limit) are compared on that fact only" % L.FUEL]
 PID = "C01"
+MIRRORS = L.mirrors(PID)
 
 
 def run(ctx):
